@@ -461,11 +461,20 @@ class C09:
                 return "error:" + type(e).__name__
 
         def type_ctrl_z():
+            # logical trigger, not a wall-clock guess: type ^Z once the job owns the terminal (then the tty sends it SIGTSTP)
+            end = time.time() + 10
+            while time.time() < end:
+                try:
+                    if os.tcgetpgrp(2) != os.getpgrp():
+                        break
+                except OSError:
+                    pass
+                time.sleep(0.01)
+            time.sleep(0.15)
             os.write(self.master_fd, b"\x1a")
             rec.count("pty_ctrl_z_typed")
 
-        timer = threading.Timer(0.4, type_ctrl_z)
-        timer.name = "verif-suspend"
+        timer = threading.Thread(target=type_ctrl_z, name="verif-suspend")
         timer.start()
         t0 = time.time()
         out = "ok"
@@ -484,7 +493,7 @@ class C09:
             self.take_terminal_back()
             return
         stopped = [pid for pid, (n, st) in self.children().items() if pid not in self.baseline_children and st == "T"]
-        if took > 1.7 or not stopped:
+        if not stopped:
             # the job finished before / without being stopped (e.g. ^Z arrived while the shell still owned the terminal): nothing to judge
             rec.count("pty_suspend_not_effective")
             if owner() != "shell":
